@@ -328,8 +328,9 @@ impl Prop for C38 {
     }
     fn rule(&self) -> &'static str {
         "Scenarios of the real Syncer against simulated header-ex peers over a 160-header honest chain (header h is \
-         161-h days old; sampling window 20..200 days; batch sizes 8..100): initial head 100..150 (sometimes after a \
-         failed or a stale head answer), then 30-90 events: answers to a randomly chosen outstanding request of the real \
+         161-h days old; sampling window 20..200 days; batch sizes 8..100): initial head 100..150 INSIDE the sampling \
+         window (premise: trusted peers report a fresh head; an older one is refused as `stale-head`; sometimes after a \
+         failed or a stale-but-fresh head answer), then 30-90 events: answers to a randomly chosen outstanding request of the real \
          HeaderSession — honest (55%), truncated, fork signed by the honest key, foreign chain, invalidated or re-signed \
          header at a random position, gap, reversed, one too many, empty, not-found, transport error — header-sub \
          announcements (adjacent, gap, stale), up to two disconnect/reconnects with a new network head, removals by \
@@ -352,7 +353,10 @@ impl Prop for C38 {
             let pw = if rng.chance(1, 6) { 0 } else { sw + 1 };
             let bs = *rng.pick(&[8u64, 16, 20, 32, 64, 64, 100, 100, 512]);
             let d = *rng.pick(&FORKS);
-            let mut head = rng.range(100, 150);
+            // premise of C38 (hypothesis `HeadFresh` of the theorems that admit pruning): the network head
+            // handed over by TRUSTED peers is inside the sampling window (it is seconds old in reality)
+            let fresh_lo = (N + 1).saturating_sub(sw).max(1);
+            let mut head = rng.range(fresh_lo.max(100).min(150), 150);
             out.op(format!("start n={N} sw={sw} pw={pw} bs={bs} d={d}"), "start", false);
             out.op("connect", "connect", false);
             if sc % 4 == 1 {
@@ -403,7 +407,8 @@ impl Prop for C38 {
                         out.op("disconnect", "disconnect", true);
                         out.op("connect", "connect", false);
                         let h = match rng.below(3) {
-                            0 => rng.range(1, head),
+                            // a stale (lower) head, still inside the sampling window
+                            0 => rng.range(fresh_lo.min(head), head),
                             _ => (head + rng.below(5)).min(N),
                         };
                         out.op(format!("head h={h}"), "head/reconnect", true);
@@ -535,6 +540,16 @@ impl Prop for C38 {
                 "head" => {
                     let Some(responder) = ctx.head_req.take() else { return "bad-op".to_string() };
                     let Some(v) = arg(line, "h") else { return "bad-op".to_string() };
+                    // premise: a network head reported by TRUSTED peers is inside the sampling window (judged
+                    // by its real time); a staler one is not an admissible event of this property — `stale-head`
+                    if let Some(h) = v.parse::<u64>().ok().and_then(honest) {
+                        let cutoff = (Time::now() - Duration::from_secs(ctx.sw * DAY + DAY / 2))
+                            .unwrap_or_else(|_| Time::unix_epoch());
+                        if h.time() <= cutoff {
+                            ctx.head_req = Some(responder);
+                            return "stale-head".to_string();
+                        }
+                    }
                     let res = match v.parse::<u64>().ok().and_then(honest) {
                         Some(h) => Ok(vec![h]),
                         None => Err(P2pError::HeaderEx(HeaderExError::OutboundFailure(OutboundFailure::Timeout))),
